@@ -139,11 +139,11 @@ def run(ctx):
         "np.random.seed(z) with an explicit z forgets the previous state (the only law assumed of the oracle in the theorems)",
     ]
     if ctx.quick:
-        tasks = ["small", "g1:16.0", "rand:1:1:40:1", "rand:1:1:40:0", "sym:0", "sym:1", "randfee:2:2:30:3"]
+        tasks = ["small", "g1:16.0", "rand:1:1:40:1", "rand:1:1:40:0", "sym:0", "sym:1", "randfee:2:2:30:3", "reexit"]
         envs = [(0, "fresh"), (1, "seeded"), (2, "advanced"), ("random", "fresh"), ("random", "advanced")]
         mon_h = [16.0]
     else:
-        tasks = ["small", "g1:16.0", "g1:20.0", "g1:27.5", "rand:1:1:40:1", "rand:1:1:40:0", "rand:2:1:30:5", "rand:1:2:40:7", "rand:2:2:30:11", "sym:0", "sym:1", "sym:2", "randfee:2:2:30:3", "randfee:1:2:40:4"]
+        tasks = ["small", "g1:16.0", "g1:20.0", "g1:27.5", "rand:1:1:40:1", "rand:1:1:40:0", "rand:2:1:30:5", "rand:1:2:40:7", "rand:2:2:30:11", "sym:0", "sym:1", "sym:2", "randfee:2:2:30:3", "randfee:1:2:40:4", "reexit"]
         envs = [(hs, pr) for hs in (0, 1, 2, "random") for pr in ("fresh", "seeded", "advanced")]
         mon_h = [16.0, 20.0, 27.5]
 
